@@ -36,6 +36,28 @@ Theorem C13_blinds :
 Proof. exact pay_blinds_result. Qed.
 Print Assumptions C13_blinds.
 
+(* in every reachable state in which the engine asks for the antes / the blinds, the premises of the two
+   theorems above hold: the antes (blinds) are requested on a table with nothing in front of any seat *)
+From PF Require Import ProofsPhase.
+Theorem C13_requested_on_a_clean_table :
+  forall c deck g ops,
+    cfg_ok c -> length deck = length (c_deck c) -> create c deck = (g, Ok) ->
+    let s := run g ops in
+    (st_event (g_st s) = EvAnteRequested ->
+       0 < m_ante (g_meta s) /\ forall i, (i < nplayers s)%nat -> seat_ok (get_p s i) /\ p_wager (get_p s i) = 0) /\
+    (st_event (g_st s) = EvBlindsRequested ->
+       meta_ok (g_meta s) /\ st_cw (g_st s) = 0 /\ forall i, (i < nplayers s)%nat -> seat_ok (get_p s i) /\ p_wager (get_p s i) = 0).
+Proof.
+  intros c deck g ops Hc Hl Hcr s. destruct (Good_reachable c deck g ops Hc Hl Hcr) as [HI _ _ P _]. fold s in HI, P.
+  pose proof (inv_chips s HI) as C0. split.
+  - intros He. split; [apply (pi_ante s P He)|]. intros i Hi. split; [apply (c0_seats s C0 i Hi)|].
+    assert (Hr : st_round (g_st s) = RNone) by (pose proof (pi_legal s P) as L; unfold ph in L; rewrite He in L; exact L).
+    apply (proj1 (pi_none s P Hr) i Hi).
+  - intros He. destruct (pi_blinds s P He) as [W0 C]. split; [apply (c0_meta s C0)|]. split; [exact C|].
+    intros i Hi. split; [apply (c0_seats s C0 i Hi)|apply (W0 i Hi)].
+Qed.
+Print Assumptions C13_requested_on_a_clean_table.
+
 Theorem C13_forced_payment_capped_at_stack :
   forall g i chips is_wager,
     (i < nplayers g)%nat -> seat_ok (get_p g i) ->
